@@ -22,7 +22,7 @@ namespace metrics
 // instrument-name = ALPHA 0*254 ("_" / "." / "-" / "/" / ALPHA / DIGIT)
 const std::string kInstrumentNamePattern = "[a-zA-Z][-_./a-zA-Z0-9]{0,254}";
 //
-const std::string kInstrumentUnitPattern = "[\x01-\x7F]{0,63}";
+const std::string kInstrumentUnitPattern = "[\\x00-\\x7F]{0,63}";
 // instrument-unit = It can have a maximum length of 63 ASCII chars
 #endif
 
@@ -63,7 +63,7 @@ bool InstrumentMetaDataValidator::ValidateName(nostd::string_view name) const
 bool InstrumentMetaDataValidator::ValidateUnit(nostd::string_view unit) const
 {
 #if OPENTELEMETRY_HAVE_WORKING_REGEX
-  return std::regex_match(unit.data(), unit_reg_key_);
+  return std::regex_match(unit.begin(), unit.end(), unit_reg_key_);
 #else
   const size_t kMaxSize = 63;
   // length atmost 63 chars
